@@ -141,6 +141,13 @@ def handle_path_command(args: argparse.Namespace) -> None:  # noqa: PLR0912, D10
             raise
         sys.stderr.write(f"target document decode error: {err}\n")
         sys.exit(1)
+    except (ValueError, RecursionError) as err:
+        # `json.load` refuses integers with more digits than `int` converts
+        # and documents nested deeper than the interpreter's stack.
+        if args.debug:
+            raise
+        sys.stderr.write(f"target document decode error: {err}\n")
+        sys.exit(1)
     except JSONPathTypeError as err:
         # Type errors are currently only occurring are compile-time.
         if args.debug:
